@@ -79,6 +79,16 @@ THEOREMS.update({
     'C03_model_is_source_cli_reveal_plate': 'the translation of the whole function reveal_plate.main regenerated on this run equals Cli.cli_reveal_plate: reveal_plates(load(--screen), --plate-id list) saved to --output',
 })
 EXPLANATION += ("  CLI wrappers: prepare_retrospective_simulation.main and reveal_plate.main are re-translated as WHOLE functions on every run (Generated/SrcCli.v) and proved equal to Model/Cli.v.  These links trust the translator harness/py2gal.py (for these links extended by cfg typed_effects, kwcalls keys `module.function`, state_calls assigned to a tuple), the representation of Model/Cli.v (parsed arguments = a record of the plain argparse results, get_args() not translated = the primitive `get_args()` yielding that record; a main() denotes the list of (path, content) files it writes; `L` = ANY record of library functions over abstract types) and EXACTLY these primitives of harness/src_functions.py, each one field read / one library or constructor call standing for the function of that name (whose own link, where it exists, is the one of its property): CLI_PRNG (get_prng_from_seed_argument, reads args.seed only): numpy.random.SeedSequence(s).generate_state(1)[0] = seedseq_word mix s (ValueError for s < 0, `mix` an arbitrary function of the seed), numpy.random.default_rng(w) = Gen w. CLI_PREPARE: the fields of `args` read as the record's projections (a store to one is refused); ignored: log_config.configure_logging(args), logger.info/warning; Screen.load_h5(p), filter_dataset_to_treatments_that_appear_in_at_least_one_combo(s), get_prng_from_seed_argument(args) (translated), the three args.<x>_cls(**args.<x>_params) constructors, s.plates, p.is_observed, p.plate_id, p.size, s.n_plates, `s.size / n` = py_truediv (ZeroDivisionError for 0), np.std(l) (logged only), keyword calls mask_screen(screen=) and reveal_plates(screen=, plate_ids=), and the five STATE calls on the one generator `rng`, each receiving the generator state and returning the next: g.generate_and_unmask_initial_plate(screen=, rng=rng), g.generate_plates(screen=, rng=rng), rng.choice(l), g.smooth_plates(screen=, rng=rng), create_plate_balanced_holdout_set_among_masked_plates(screen=, fraction=, rng=rng); typed effect r.save_h5(p).  The branches, the Optional initial generator, the comprehension of unobserved plates and the order of all steps come from the translation. CLI_REVEAL_PLATE: the fields of `args` read as the record's projections (a store to one is refused); ignored: log_config.configure_logging(args), logger.info/warning; Screen.load_h5(p), reveal_plates(s, ids), typed effect r.save_h5(p). ")
+THEOREMS.update({
+    'C03_model_is_source_cli_args_get_args': 'the translation of the WHOLE function prepare_retrospective_simulation.get_args (parse_args() = the raw namespace) equals Cli.pr_get_args: the three class-valued options in source order (plate generator, initial plate generator, plate smoother), each only when given, each cast with the annotations of ITS OWN class',
+    'C03_model_is_source_cli_args_prepare_retrospective_simulation': 'prepare_retrospective_simulation.main translated as a whole command (get_args() = the translated get_args; each args.<x>_cls(**args.<x>_params) = its construct on the two attributes) equals Cli.cli_prepare_cmd',
+    'C03_model_is_source_cli_args_prepare_retrospective_simulation_world': 'the same with the introspection record made of the TRANSLATED get_class / get_required_init_args_with_annotations (Props/C18.v)',
+    'C03_model_is_source_cli_args_plain_arguments_unchanged': 'the translated get_args returns a namespace whose plain argparse results (paths, option names, --holdout-fraction, --seed) are those parse_args produced',
+})
+import c18_args
+EXPLANATION += c18_args.explanation(["get_args", "cmd"], "prepare_retrospective_simulation.get_args and prepare_retrospective_simulation.main as a whole command are") + (
+    "cast_dict_to_type, str_to_bool and the introspection functions are linked in Props/C18.v (their primitives are listed in C18's evidence).  "
+    "Runtime: get_args() is run on generated command lines (kind cli_args): each <x>_cls is the class named, each <x>_params typed by THAT class's annotations, --holdout-fraction unchanged.  ")
 
 _CAUSE = {"reveal": "reveal", "cli_reveal": "reveal", "mask": "mask", "unmask": "unmask", "saveload": "saveload", "meta_cli": "saveload",
           "setobs": "setobs"}
@@ -182,6 +192,8 @@ def gen(rng, tier):
                          ["NPlatePerCellLineSmoother", dict(min_n_cell_line_plates=rng.choice([1, 2, 3]))]])
         ini = rng.choice([None, None, ["SparseCoverPlateGenerator", dict(reveal_single_treatment_experiments=rng.choice(["True", "False"]))]])
         yield dict(kind="prepare", screen=sd, gen=g, smooth=sm, init=ini, fraction=rng.choice([0.1, 0.25, 0.5, 0.5, 1.0]), seed=rng.randrange(10 ** 6))
+    import c18_args
+    yield from c18_args.gen_get_args(rng, tier, only="prepare_retrospective_simulation")
 
 
 def _features(desc, h):
@@ -281,6 +293,9 @@ def _run_prepare(desc):
 
 
 def run(desc):
+    if desc.get("kind") == "cli_args":      # get_args() of this property's wrapper on generated command lines (harness/c18_args.py)
+        import c18_args
+        return c18_args.run_case(desc)
     if desc["kind"] == "prepare":
         return _run_prepare(desc)
     h = simlib.run_history(desc, sl.canon_screen)
@@ -305,6 +320,8 @@ def _sig_desc(desc):
 
 def shrink(desc):
     """smaller descriptions with the SAME failure signature (so a minimised witness stays the same finding)"""
+    if desc.get("kind") == "cli_args":
+        return
     if desc["kind"] == "prepare":
         rows = desc["screen"]["rows"]
         for i in range(len(rows)):
